@@ -13,6 +13,10 @@ DEF_LEAF2 = ('Cmd(%s, << Grp("{", << Cmd(%s, <<>>) >>, <<>>), Grp("[", << T(%s) 
              % (S('renewcommand'), S('nm'), S('1'), S('#1'), S('end'), S('e')))
 
 
+DEF_LEAF3 = ('Cmd(%s, << Grp("{", << Cmd(%s, <<>>) >>, <<>>), Grp("{", << Cmd(%s, << Grp("{", << Cmd(%s, << Grp("{", << T(%s) >>, <<>>) >>), T(%s), Cmd(%s, << Grp("{", << T(%s) >>, <<>>) >>) >>, <<>>) >>) >>, <<>>) >>)'
+             % (S('newcommand'), S('nm'), S('fbox'), S('begin'), S('e'), S('#1'), S('end'), S('e')))
+
+
 def leaf_cmd(name, *groups):
     """a complete command leaf: groups = ('{', 'text') / ('[', 'text')"""
     gs = ', '.join('Grp("%s", << T(%s) >>, <<>>)' % (k, S(t)) for k, t in groups)
